@@ -102,6 +102,7 @@ type VCtx struct {
 	heldAtEntry *Term
 	published map[string]bool
 	freshObjs []*Term
+	freshKeys []*Term           // objects and channels allocated by this invocation (possible ghost-map keys)
 	allFresh  []*Term           // every struct object allocated by this invocation
 	storedIn  map[string][]Val  // values stored into a not yet published fresh object / local cell (published with it)
 	exemptFresh []*Term // set while translating a global clause to be proved: unpublished fresh objects
